@@ -75,8 +75,9 @@ def documented : List (String × Doc) := [
   ("get_process_info", { family := .fromDistribution, params := [.name] }),
   ("get_process_rules", { family := .fromDistribution, params := [.name] }),
   ("get_conflicts", { family := .fromDistribution }),
-  ("restart", { family := .fromDistribution }),
-  ("shutdown", { family := .fromDistribution }),
+  -- "... or has no Master instance to perform the request"
+  ("restart", { family := .fromDistribution, extra := [.masterKnown] }),
+  ("shutdown", { family := .fromDistribution, extra := [.masterKnown] }),
   -- start / restart / test_start / update_numprocs / enable / disable / restart_sequence: OPERATION only
   ("start_application", { family := .operation, params := [.strategy, .name, .managed] }),
   ("test_start_application", { family := .operation, params := [.strategy, .name, .managed] }),
@@ -155,9 +156,6 @@ def gatesMatch : Option Doc → Method → Bool
   | none, _ => false
   | some d, m => allGatesMatch d m.steps
 
-/-- the documented further conditions on the modes hold (Master not yet known, USER option, no job in progress) -/
-def modesPass (s : State) : Bool := !s.masterSet && s.userOpt && !s.jobs
-
 /-- fault code of a raise step against the statement: state check, name checks, strategy check, managed check -/
 def stepFaultOk : Step → Bool
   | .raise c f =>
@@ -197,13 +195,14 @@ def PKind.all : List PKind := [.strategy, .name, .inst, .managed, .value]
 /-- parameter classes the method does not document are vacuously valid -/
 def wellFormed (d : Doc) (a : Args) : Bool := PKind.all.all (fun k => d.params.contains k || a.flag k)
 
-/-- no raw look-up and no effect that may raise a non-RPC exception -/
-def crashFree (cr : Crashes) (steps : List Step) : Bool :=
-  steps.all (fun st => match st with
-    | .lookupInst => false
-    | .derefProcess => false
-    | .effect n => !cr.any (fun x => x.1 == n)
-    | _ => true)
+/-- no raw look-up, and every effect that raises a non-RPC exception when no Master is known comes after the check
+    that a Master is known (`established`); `deref` tells whether an untested process dereference is tolerated -/
+def crashGuarded (cr : Crashes) (deref : Bool) : Bool → List Step → Bool
+  | _, [] => true
+  | g, .raise c _ :: rest => crashGuarded cr deref (g || c == .masterKnown) rest
+  | g, .effect n :: rest => (g || !cr.any (fun x => x.1 == n)) && crashGuarded cr deref g rest
+  | _, .lookupInst :: _ => false
+  | g, .derefProcess :: rest => deref && crashGuarded cr deref g rest
 
 /-- what the harness observed on the implementation -/
 inductive Outcome
@@ -234,7 +233,8 @@ def judge (d : Doc) (s : State) (a : Args) (o : Outcome) (changed : Bool) : Opti
       if o == .fault .badSupvisorsState then noEffect
       else if o == .fault .notApplicable then (if changed then some "effect-despite-rejection" else none)
       else some "served-without-USER-option"
-    else if (d.extra.contains .masterUnset && s.masterSet) || (d.extra.contains .jobsIdle && s.jobs) then
+    else if (d.extra.contains .masterUnset && s.masterSet) || (d.extra.contains .jobsIdle && s.jobs)
+        || (d.extra.contains .masterKnown && !(s.isMaster || s.masterSet)) then
       -- documented further condition on the modes: the statement is silent; only "rejected => no effect" applies
       noEffect
     else
